@@ -84,7 +84,7 @@ def run_model(idx, max_components=3, with_memo=True):
                 def do_lasts(interp, call, recv, args, kwargs):
                     interp.record_call("_do_lasts")
 
-                it = Interp(idx, types={"self": "Matcher"},
+                it = Interp(idx, types={"self": "Matcher"}, inline_all={"Matcher"},
                             domains={BLANK: [False], "self._AND": [AND], "self.csvpath": [Obj("self.csvpath")],
                                      "self.csvpath.explain": [False]},
                             handlers={".matches": comp_matches, "self.clear_errors": clear_errors, "self._do_lasts": do_lasts})
